@@ -254,4 +254,14 @@ theorem scheme_error (hsig : ∀ i, |sig i| ≤ 1) (X : Cl n sig) (j : Nat) (h :
   apply mul_le_mul_of_nonneg_left (exp_15_terms_suffice hsig Y hY M hM)
   positivity
 
+/-- the witness against the old scaling: in Cl(1) with `e1² = 1`, `X = 1 + e1` -/
+def Xw : Cl 1 (fun _ => (1 : ℚ)) := fun _ => 1
+
+/-- **the largest coefficient is not submultiplicative**: every coefficient of `X = 1 + e1` has absolute value 1, yet the scalar coefficient of
+`X·X` is 2 — a bound on the largest coefficient of the argument bounds nothing about its powers (defect 11) -/
+theorem max_coeff_not_submultiplicative : (∀ c, |Xw c| ≤ 1) ∧ (Xw * Xw) fzero = 2 := by
+  refine ⟨fun c => by simp [Xw], ?_⟩
+  show gmul 1 (fun _ => (1 : ℚ)) Xw Xw fzero = 2
+  simp +decide [gmul, Xw, fxor, fzero, s, swaps, metric, sgn, bit]
+
 end L1
